@@ -112,6 +112,10 @@ func (d Doc) Apply(ps []workload.PatchDesc) (Doc, bool) {
 			}
 
 			r.Svcs = []Entry{{"s1", p.Mark}}
+
+			if len(p.IDs) == 0 { // replace with the empty document
+				r.Svcs = nil
+			}
 		case workload.AddAKA:
 			for _, u := range p.IDs {
 				found := false
